@@ -106,6 +106,48 @@ def smoothed_path_sampled(c, kinds, closed):
     c.ensures('within-maxjointsize-of-the-original', worst <= mj + 1e-2 * size)
 
 
+@contract('C20', 'smoothing.smoothed_path', params=[{'kinds': k, 'near': nr, '_bounded_only': True} for k in ('LL', 'LC', 'CL') for nr in ('straight', 'reversal')])
+def smoothed_path_slight_and_sharp_corners_sampled(c, kinds, near):
+    """bounded stand-in for the ends of the angle range (0,180): corners of 0.01..8 degrees and
+    of 172..179.95 degrees (not reversals) are smoothed too - the result has no kinks"""
+    from svgpathtools.smoothing import smoothed_path
+    import svgpathtools.path as sp
+    import cmath
+    a = c.cplx('a')
+    L0, L1 = 1 + abs(c.real('l0')) % 20, 1 + abs(c.real('l1')) % 20
+    d0 = cmath.exp(1j * c.real('phi'))
+    dev = 10 ** (-2 + 2.9 * (abs(c.real('u')) % 1.0))            # 0.01 .. 8 degrees
+    turn = dev if near == 'straight' else 180 - dev
+    turn = turn if c.bool('left') else -turn
+    d1 = d0 * cmath.exp(1j * math.radians(turn))
+    b = a + L0 * d0
+    e = b + L1 * d1
+
+    def seg(k, p, q, din, dout):
+        if k == 'L':
+            return sp.Line(p, q)
+        ln = abs(q - p)
+        # a cubic that leaves p in direction din and arrives at q in direction dout
+        return sp.CubicBezier(p, p + din * ln / 3, q - dout * ln / 3, q)
+    w = cmath.exp(1j * 0.4)
+    s0 = seg(kinds[0], a, b, d0 * w if kinds[0] == 'C' else d0, d0)
+    s1 = seg(kinds[1], b, e, d1, d1 / w if kinds[1] == 'C' else d1)
+    path = sp.Path(s0, s1)
+    mj = min(L0, L1) * (0.05 + abs(c.real('mj')) % 1.0)
+    out = c.outcome(lambda: smoothed_path(path, maxjointsize=mj))
+    c.ensures('returns', out.kind == 'ok')
+    if out.kind != 'ok':
+        return
+    res = out.value
+    c.ensures('continuous', res.iscontinuous())
+    worst = 0.0
+    for i in range(len(res) - 1):
+        u, v = res[i].unit_tangent(1), res[i + 1].unit_tangent(0)
+        worst = max(worst, abs(u - v))
+    c.ensures('no-kinks(unit-tangents-match-to-1e-4)', worst <= 1e-4)
+    c.ensures('same-start-and-end', res.start == path.start and res.end == path.end)
+
+
 @contract('C20', 'smoothing.smoothed_joint', params=[{'order': o, '_no_bounded': True} for o in ('line-cubic', 'cubic-line')], budget=240, tier='thorough')
 def line_cubic_joint(c, order):
     """a line meeting a cubic (either order; the second is done by the code through reversal)"""
@@ -212,7 +254,11 @@ def smoothed_path_list_surgery(c, closed, n, pattern):
                 state['joint'] = joint_of(seg)
                 return pattern[state['joint']] == 's'
         # second question of the same joint: isclose(-ut0, ut1)
-        return pattern[state['joint']] == 'c'
+        for key, (seg, u0, u1) in tang.items():
+            if 'joint' in state and ops.known_zero(a + u1) if hasattr(ops, 'known_zero') else ('joint' in state and sym.eq(a, sym.neg(u1)) is True):
+                return pattern[state['joint']] == 'c'
+        from pyvc.explore import Unsupported
+        raise Unsupported("smoothed_path classifies a joint by a test this contract does not recognise (expected isclose(ut0, ut1) and isclose(-ut0, ut1))")
     c.ip.summaries['misctools.isclose'] = isclose
 
     def smoothed_joint(ip, f, args, kwargs):
